@@ -27,6 +27,8 @@ type c19Entry struct {
 	Stream bool   `json:"stream"` // true: data descriptor; false: sizes in the local header
 	Body   vfB    `json:"body"`
 	Mod    bool   `json:"mod,omitempty"` // modification time set: the writer adds an extended-timestamp extra field
+	Extra  vfB    `json:"extra,omitempty"` // extra field records of the local header (JAR magic 0xCAFE, unix uid/gid, padding, ...)
+	Flags  int    `json:"flags,omitempty"` // general-purpose flag bits 1-2 (deflate effort, set by `zip -9`, `zip -1` and MS Office)
 }
 
 type c19Case struct {
@@ -46,7 +48,7 @@ func c19Build(es []c19Entry) ([]byte, error) {
 			e.Method = 0
 		}
 		if e.Stream {
-			fh := &azip.FileHeader{Name: e.Name, Method: uint16(e.Method)}
+			fh := &azip.FileHeader{Name: e.Name, Method: uint16(e.Method), Extra: []byte(e.Extra), Flags: uint16(e.Flags)}
 			if e.Mod {
 				fh.Modified = time.Date(2024, 2, 29, 12, 30, 0, 0, time.UTC)
 			}
@@ -70,7 +72,7 @@ func c19Build(es []c19Entry) ([]byte, error) {
 			comp = cb.Bytes()
 		}
 		fh := &azip.FileHeader{Name: e.Name, Method: uint16(e.Method), CRC32: crc32.ChecksumIEEE(body),
-			CompressedSize64: uint64(len(comp)), UncompressedSize64: uint64(len(body))}
+			CompressedSize64: uint64(len(comp)), UncompressedSize64: uint64(len(body)), Extra: []byte(e.Extra), Flags: uint16(e.Flags)}
 		if e.Mod {
 			fh.Modified = time.Date(2024, 2, 29, 12, 30, 0, 0, time.UTC)
 		}
@@ -143,9 +145,26 @@ func c19GenBody(t *rapid.T) vfB {
 	return vfB(strings.Repeat("lorem ipsum dolor sit amet ", rapid.IntRange(1, 40).Draw(t, "rep")))
 }
 
+// c19Extras are extra-field records real writers put into local headers.
+var c19Extras = []string{
+	"\xfe\xca\x00\x00",                         // the JDK's JAR magic (first entry of a JarOutputStream archive)
+	"ux\x0b\x00\x01\x04\xe8\x03\x00\x00\x04\xe8\x03\x00\x00", // Info-ZIP unix uid/gid
+	"\x0a\x00\x20\x00\x00\x00\x00\x00\x01\x00\x18\x00" + "\x00\x11\x22\x33\x44\x55\x66\x01" + "\x00\x11\x22\x33\x44\x55\x66\x01" + "\x00\x11\x22\x33\x44\x55\x66\x01", // NTFS times
+	"\x35\xd9\x02\x00\x00\x00",                 // Android zipalign padding record
+	"\xfe\xca\x00\x00ux\x0b\x00\x01\x04\x00\x00\x00\x00\x04\x00\x00\x00\x00",
+	"\x01\x99\x07\x00\x02\x00AE\x03\x08\x00",  // WinZip AES
+}
+
 func c19GenEntry(t *rapid.T, name string) c19Entry {
-	return c19Entry{Name: name, Method: rapid.SampledFrom([]int{0, 8, 8}).Draw(t, "method"), Stream: rapid.Bool().Draw(t, "stream"), Body: c19GenBody(t),
+	e := c19Entry{Name: name, Method: rapid.SampledFrom([]int{0, 8, 8}).Draw(t, "method"), Stream: rapid.Bool().Draw(t, "stream"), Body: c19GenBody(t),
 		Mod: rapid.IntRange(0, 3).Draw(t, "mod") == 0}
+	if rapid.IntRange(0, 3).Draw(t, "withextra") == 0 {
+		e.Extra = vfB(rapid.SampledFrom(c19Extras).Draw(t, "extra"))
+	}
+	if rapid.IntRange(0, 3).Draw(t, "withflags") == 0 {
+		e.Flags = rapid.SampledFrom([]int{2, 4, 6}).Draw(t, "flags")
+	}
+	return e
 }
 
 func c19Gen(t *rapid.T) c19Case {
@@ -334,7 +353,7 @@ func c19Check(c c19Case) vfResult {
 	desc := func() string {
 		var sb strings.Builder
 		for i, e := range c.Entries {
-			fmt.Fprintf(&sb, "%d:%q(m%d,stream=%v,%dB) ", i, e.Name, e.Method, e.Stream, len(e.Body))
+			fmt.Fprintf(&sb, "%d:%q(m%d,stream=%v,%dB,extra=%x,flags=%#x) ", i, e.Name, e.Method, e.Stream, len(e.Body), []byte(e.Extra), e.Flags)
 		}
 		return sb.String()
 	}
